@@ -630,7 +630,7 @@ Theorem C01_unified_rotation_any_level_preserves_paths_b :
     walk_pre_uni h lvl top H v entries headers names_cb exits todo isback latch sexit bv fresh = true ->
     exists nl g0 g1 tbl g1',
       find h lvl = Some nl /\ collect h (children_h nl) = Some g0 /\
-      insert_cb g0 H v entries headers names_cb C_HEAD = Ok g1 /\
+      insert_cb g0 H v entries headers names_cb C_HEAD = Ok g1 /\ head_tbl g1 H v headers = Some tbl /\
       loop_rotate g1 H headers exits todo true tbl isback latch sexit v bv fresh = Ok g1' /\
       forall n e e' ds tr st,
         (exists b p, find h n = Some b /\ n_kind b = KOrig p) ->
@@ -720,3 +720,18 @@ Theorem C01_compared_hierarchies_have_the_same_walks :
       (WTrace a (resolve_flat a) strict n e ds tr st <-> WTrace b (resolve_flat b) strict n e ds tr st).
 Proof. exact compared_equal_same_walks. Qed.
 Print Assumptions C01_compared_hierarchies_have_the_same_walks.
+
+(* what the value 4 of the per-call column means (UniHierRun.uni_col_of, computed by the extracted checker for
+   every call of loop_restructure_helper with several headers from the hierarchy before the call h, the
+   hierarchy the implementation produced ha and the recorded arguments): ha has every flat walk of h.  The
+   column evaluates walk_pre_uni, the rotation, and the certificate "fit for flattening, original blocks kept,
+   equal to ha up to the order of the node list" (walks_cert_sound, HierEquiv.compared_equal_same_walks). *)
+From V Require Import Model.UniHierRun.
+Theorem C01_unified_rotation_column_sound :
+  forall h ha lvl loop headers entries exiting exits doms bnames vnames strict,
+    uni_col_of h ha lvl loop headers entries exiting exits doms bnames vnames = 4%Z ->
+    exists v bv, forall n e e' ds tr st,
+      (exists b p, find h n = Some b /\ n_kind b = KOrig p) -> E (Fu v bv) e e' ->
+      WTrace h (resolve_flat h) strict n e ds tr st -> WTrace ha (resolve_flat ha) strict n e' ds tr st.
+Proof. exact uni_col_sound. Qed.
+Print Assumptions C01_unified_rotation_column_sound.
